@@ -127,7 +127,7 @@ CHECKS["C17"] = {"text": "Model/Backward.v mirrors the structural part of backwa
     "element for element in the same order, no helper stays listed; the result does not depend on whether the inner run returned or raised (C17_crash_irrelevant). A later forward simulate equals a fresh one "
     "(from C09's independence of the incoming state). In the logs of any run an FS successor is never logged WORKING at or before a step where its predecessor is logged WORKING (Inv of C01 on the ghost history of C08), "
     "the reversed configuration has exactly the reversed edges, and reversing equal-length logs swaps the order; for the model of the whole call (Model/BackwardRun.v) the time-reversed logs show an FS predecessor WORKING only "
-    "strictly before its successor and every log has one entry per step. The structure model is tied to the code by vm_compute correspondence on the structure recorded before, "
+    "strictly before its successor (for links recorded in the predecessor's output list; for a link declared in the successor's input list only the statement is false in model and code alike: theorem C17_backward_order_refuted_for_input_only_links and the recorded finding C17/order-onesided) and every log has one entry per step. The structure model is tied to the code by vm_compute correspondence on the structure recorded before, "
     "inside (first observer call of the inner run) and after the call; object identity of the list objects, the exception paths and the later forward run are searched by the oracle with an exception injected at (step, phase).",
     "note": COMMON_NOTE + " Object identity of the list objects and the exception paths are outside the model (searched by the oracle with injected exceptions); the whole call incl. reverse_log_information is modelled and compared with "
     "the implementation on full dumps.",
